@@ -26,6 +26,15 @@ var propCfgs = []*propCfg{
 		Stub: []string{"signal delivery: the context is cancelled by the scheduler at a chosen step or by a harness builtin, instead of by SIGINT", "harness builtins vt/vw/vintr (tick, timed work item, synchronous interrupt)"},
 		Assumptions: simgoAssumptions,
 	},
+	{
+		ID: "C20", Level: "exploration", SimEngine: "simgo",
+		Quick:    tierCfg{Seeds: 5000, Secs: 70, Batch: 100},
+		Thorough: tierCfg{Seeds: 400000, Secs: 900, Batch: 200},
+		Rule: "one evaluation = one generated case (peach with bound 1..8/+inf/big-int/default, Go-callable or closure callback, list or piped inputs of 0..12 (thorough 0..300) items; or run-parallel of 0..12 functions) with a tape-generated behaviour table per input (fake delay, value and byte outputs, outcome ok/continue/break/fail) under one seeded schedule; bound-1 cases are re-run with each on the same table (sub_evaluations counts simulations); distinct = distinct interleaving signature; non-trivial = at least one scheduling choice",
+		Real: []string{"pkg/eval peach, each, runParallel, x/sync/semaphore, value/byte output ports, exception aggregation (errutil.Multi, MakePipelineError)"},
+		Stub: []string{"harness callback vcb (behaviour table, start/end recording, fake-time delay)"},
+		Assumptions: simgoAssumptions,
+	},
 }
 
 func findProp(id string) *propCfg {
